@@ -102,6 +102,7 @@ type runner struct {
 	priPrevName string
 	restores  int
 	hotLeft   map[string]bool // databases on which hotj left a journal at some point
+	keep      map[string]*keptConn
 	recreateRolledBack map[string]bool // databases whose re-creation was started and rolled back (an empty database file may exist)
 	idles int // idle events so far (an idle period changes no state the key sees; at most two per history)
 }
@@ -1083,6 +1084,45 @@ func (r *runner) readerCheck(n *lab.Node, db, ev string) {
 		r.viol("C01/reader-image/"+evKind(ev), "%s/%s: at position (%d,%016x) an application reads through the page cache an image that differs from the primary's image at that position: %s\ncache log tail: %v",
 			n.Cfg.Name, db, txid, chk, diff, tailS(n.PC.Log, 8))
 	}
+	// A connection opened for this check is the only one and therefore rebuilds the wal-index from the log, as
+	// SQLite's first opener does. An application that has been connected all along trusts the index it finds - the
+	// one LiteFS publishes after every apply. In WAL mode the same read is made through such a connection too.
+	key := n.Cfg.Name + "/" + db
+	if k := r.keep[key]; k != nil && (!wal || k.m != n.M) {
+		k.c.Close()
+		delete(r.keep, key)
+	}
+	if !wal {
+		return
+	}
+	k := r.keep[key]
+	if k == nil {
+		if r.keep == nil {
+			r.keep = map[string]*keptConn{}
+		}
+		k = &keptConn{c: pager.NewConn(n.M, db, r.nextOwner(), r.cfg.PageSize), m: n.M}
+		r.keep[key] = k
+	}
+	posStr2, _ := n.M.ReadPos(db)
+	got2, err2 := k.c.ReadImageWAL()
+	if err2 != nil {
+		// the database was replaced under the connection (dropped and created again): connect anew next time
+		k.c.Close()
+		delete(r.keep, key)
+		return
+	}
+	if posStr2 != posStr {
+		return // the node moved between the two reads
+	}
+	if ok, diff := got2.Equal(want); !ok {
+		r.viol("C01/reader-image-long-lived/"+evKind(ev), "%s/%s: at position (%d,%016x) an application that has been connected since an earlier state reads an image that differs from the primary's image at that position: %s", n.Cfg.Name, db, txid, chk, diff)
+	}
+}
+
+// keptConn is a reader connection that stays open from state to state (on the mount it was opened on).
+type keptConn struct {
+	c *pager.Conn
+	m *lab.Mount
 }
 
 func tailS(a []string, n int) []string {
